@@ -199,6 +199,14 @@ def search_filter(pid, r, n, stats):
             evs = [("g", "G28"), ("g", "G1 X5 Y5 Z0.2 F3000"), ("g", "G1 X6 Y5 E1"), ("g", "G1 X15 Y15"),
                    ("at", "PauseExclusion", r.choice(["", "", " "])), ("g", "G1 X16 Y16 E2"), ("g", "G1 X17 Y16 E3"),
                    ("at", "ExcludeRegion", "on"), ("g", "G1 X30 Y30"), ("g", "G1 X31 Y30 E4")]
+        if pid in ("C14", "C01") and r.random() < 0.06:
+            # re-enabled while the tool stands inside a region (it went there while exclusion was off):
+            # the next command is a move without X/Y
+            cfg = dict(cfg, regions=[("R", "a", 10.0, 10.0, 20.0, 20.0)])
+            cfg.pop("at", None)
+            evs = [("g", "G28"), ("g", "G1 X5 Y5 Z0.2 F3000"), ("at", "ExcludeRegion", "off"), ("g", "G1 X15 Y15 E1"),
+                   ("at", "ExcludeRegion", "on"), ("g", r.choice(["G1 Z0.6 F600", "G1 Z0.6", "G0 Z1 E1.5"])),
+                   ("g", "G1 X16 Y15 E2"), ("g", "G1 X30 Y30"), ("g", "G1 X31 Y30 E3")]
         if pid == "C07" and r.random() < 0.3:
             # tracked values far outside repr's plain range end up in the exit / recovery commands
             evs = c07_extreme_program(r, cfg)
